@@ -144,6 +144,83 @@ def c_driver(ops):
     return "".join(L)
 
 
+def cpp_driver(ops, rng):
+    """the same history through the generated C++ class API: unique_ptr wrappers (moved, reset, released and re-wrapped on the way),
+    diplomat::result / nullable unique_ptr returns, spans over diplomat_alloc'ed buffers, std::function callbacks"""
+    L = [cppgen.CPP_SUPPORT, 'extern "C" void diplomat_free(void*, size_t, size_t);\n#include "Obj.hpp"\n#include "Holder.hpp"\n',
+         "struct CbState { int* drops; ~CbState() { if (drops) { (*drops)++; dv_log(\"CbDrop\", \"cb\", \"\"); } } "
+         "CbState(int* d) : drops(d) {} CbState(const CbState& o) = delete; CbState(CbState&& o) noexcept : drops(o.drops) { o.drops = nullptr; } };\n",
+         "int main() {\n    std::unique_ptr<Obj> o[16];\n    int cb_drops = 0; (void)cb_drops;\n"]
+    mk = 'dv_log("RustMake", "p%d", ""); dv_log("ReturnBox", "p%d", "");'
+    for op in ops:
+        k = op[0]
+        if k == "make":
+            style = rng.randrange(3)
+            if style == 0:
+                L.append('    o[%d] = Obj::make(%d); %s\n' % (op[1], op[1], mk % (op[1], op[1])))
+            elif style == 1:
+                # through a temporary that is moved from: the moved-from wrapper must not destroy anything
+                L.append('    { std::unique_ptr<Obj> t_ = Obj::make(%d); %s o[%d] = std::move(t_); if (t_) dv_log("Bad", "p%d", "moved-from wrapper still owns"); }\n'
+                         % (op[1], mk % (op[1], op[1]), op[1], op[1]))
+            else:
+                # released to a raw pointer and wrapped again (what a C++ caller storing raw handles does)
+                L.append('    { Obj* raw_ = Obj::make(%d).release(); %s o[%d].reset(raw_); }\n' % (op[1], mk % (op[1], op[1]), op[1]))
+        elif k == "make_result":
+            arm = "ok" if op[2] else "err"
+            L.append('    { auto r_ = Obj::make_result(%d, %s); %s if (r_.is_ok() != %s) dv_log("Bad", "p%d", "wrong arm"); '
+                     'o[%d] = std::move(*std::move(r_).%s()); }\n'
+                     % (op[1], "true" if op[2] else "false", mk % (op[1], op[1]), "true" if op[2] else "false", op[1], op[1], arm))
+        elif k == "make_opt":
+            if op[2]:
+                L.append('    o[%d] = Obj::make_opt(%d, true); %s if (!o[%d]) dv_log("Bad", "p%d", "null for Some");\n' % (op[1], op[1], mk % (op[1], op[1]), op[1], op[1]))
+            else:
+                L.append('    if (Obj::make_opt(%d, false)) { dv_log("Bad", "p%d", "non-null for None"); }\n' % (op[1], op[1]))
+        elif k == "get":
+            L.append('    if (o[%d]->get() != %d) dv_log("Bad", "p%d", "wrong id"); dv_log("BorrowCall", "p%d", "");\n' % (op[1], op[1], op[1], op[1]))
+        elif k == "destroy":
+            how = rng.randrange(3)
+            stmt = ["o[%d].reset();", "o[%d] = nullptr;", "{ std::unique_ptr<Obj> t_ = std::move(o[%d]); }"][how] % op[1]
+            L.append('    %s dv_log("Destroy", "p%d", "");\n' % (stmt, op[1]))
+        elif k == "take_slice":
+            n = op[1]
+            L.append("    { uint8_t* b = %s; %s if (Obj::take_slice(diplomat::span<uint8_t>(b, %d)) != %d) dv_log(\"Bad\", \"slice\", \"len\"); }\n"
+                     % ("diplomat_alloc(%d, 1)" % n if n else "nullptr", "memset(b, 7, %d);" % n if n else "", n, n))
+        elif k == "take_str":
+            n = op[1]
+            L.append("    { char* b = %s; %s auto r_ = Obj::take_str(std::string_view(b, %d)); if (!r_.is_ok() || *std::move(r_).ok() != %d) dv_log(\"Bad\", \"str\", \"len\"); }\n"
+                     % ("reinterpret_cast<char*>(diplomat_alloc(%d, 1))" % n if n else "nullptr", "memset(b, 'a', %d);" % n if n else "", n, n))
+        elif k == "take_holder":
+            n, mode = op[1], op[2]
+            alloc = "uint8_t* b = %s; %s" % ("diplomat_alloc(%d, 1)" % n if n else "nullptr", "memset(b, 1, %d);" % n if n else "")
+            if mode == "plain":
+                L.append("    { %s Holder h{diplomat::span<uint8_t>(b, %d), 2}; if (Obj::take_holder(h) != %d) dv_log(\"Bad\", \"holder\", \"len\"); }\n" % (alloc, n, n + 2))
+            elif mode == "some":
+                L.append("    { %s std::optional<Holder> h(Holder{diplomat::span<uint8_t>(b, %d), 2}); if (Obj::take_opt_holder(h) != %d) dv_log(\"Bad\", \"holder\", \"some\"); }\n" % (alloc, n, n))
+            else:
+                L.append("    { if (Obj::take_opt_holder(std::nullopt) != 99) dv_log(\"Bad\", \"holder\", \"none\"); }\n")
+        elif k == "describe":
+            chunk = "obj%d;" % op[1]
+            L.append('    { std::string s_ = o[%d]->describe(%d); if (s_ != std::string("%s")) dv_log("Bad", "write", "content"); dv_log("BorrowCall", "p%d", ""); }\n'
+                     % (op[1], op[3], chunk * op[3], op[1]))
+        elif k == "describe_fixed":
+            # the C++ API has no fixed buffers: the same text through std::string, twice
+            chunk = "obj%d;" % op[1]
+            L.append('    { std::string s_ = o[%d]->describe(%d); std::string s2_ = o[%d]->describe(%d); if (s_ != std::string("%s") || s2_ != s_) dv_log("Bad", "write", "content"); '
+                     'dv_log("BorrowCall", "p%d", ""); }\n' % (op[1], op[2], op[1], op[2], chunk * op[2], op[1]))
+        elif k == "alloc_free":
+            L.append("    { uint8_t* b = diplomat_alloc(%d, %d); if (!b || ((uintptr_t)b %% %d)) dv_log(\"Bad\", \"alloc\", \"null or misaligned\"); "
+                     "%s diplomat_free(b, %d, %d); }\n" % (op[1], op[2], op[2], ("memset(b, 3, %d);" % op[1]) if op[1] else "", op[1], op[2]))
+        elif k == "peek_opt":
+            L.append("    if (Obj::peek_opt(%s) != %d) dv_log(\"Bad\", \"peek\", \"value\");\n" % (("o[%d].get()" % op[1], op[1]) if op[1] else ("nullptr", 0)))
+        elif k == "call_cb":
+            # the callable owns a move-only state object: the binding moves it to the heap and must destroy it exactly once
+            L.append("    { int before = cb_drops; auto st_ = std::make_shared<CbState>(&cb_drops); "
+                     "std::function<uint8_t(uint8_t)> f_ = [st_](uint8_t x) { (void)st_; return (uint8_t)(x + 1); }; st_.reset(); "
+                     "Obj::call_cb(std::move(f_), %d); if (cb_drops != before + 1) dv_log(\"Bad\", \"cb\", \"callable not destroyed exactly once\"); }\n" % op[1])
+    L.append("    return 0;\n}\n")
+    return "".join(L)
+
+
 def run_leg(rep, tier):
     wd = rep.wd
     rng = random.Random(lib.seed() + 7)
@@ -156,42 +233,38 @@ def run_leg(rep, tier):
     if t["rc"] != 0:
         raise lib.ToolError("C backend failed on the C03b bridge: " + t["stderr"][-800:])
     hdr = open(os.path.join(out, "Obj.h")).read()
+    outpp = os.path.join(wd, "c03b_cpp")
+    t = lib.run_tool("cpp", os.path.join(b["dir"], "src", "lib.rs"), outpp)
+    if t["rc"] != 0:
+        raise lib.ToolError("C++ backend failed on the C03b bridge: " + t["stderr"][-800:])
     runs = 12 if tier == "quick" else 150
     all_events = []
-    for i in range(runs):
-        ops = history(rng, rng.randrange(6, 26))
-        if i == 0:
-            # whatever the seed: one exactly-filled fixed buffer (the terminator lands on the last byte)
-            ops = [("make", 12), ("describe_fixed", 12, 2, 0)] + [o for o in ops if not (o[0].startswith("make") and o[1] == 12)
-                                                                   and not (len(o) > 1 and o[1] == 12)] + [("destroy", 12)]
-        src = c_driver(ops)
-        if "DiplomatCallback_Obj_call_cb_f" not in hdr:
-            src = src.replace("DiplomatCallback_Obj_call_cb_f", "DiplomatCallback_Obj_call_cb_f")
-        dp = os.path.join(wd, "c03b_%d.c" % i)
+    def execute(lang, i, ops, src):
+        """compile + run one driver under the sanitizers; returns its events (None when it did not compile)"""
+        ext, cc0, inc = (("c", ["gcc", "-std=c11"], out) if lang == "c" else ("cpp", ["g++", "-std=c++17"], outpp))
+        dp = os.path.join(wd, "c03b_%d.%s" % (i, ext))
         open(dp, "w").write(src)
-        exe = os.path.join(wd, "c03b_%d" % i)
-        cc = lib.sh(["gcc", "-std=c11", "-g", "-fsanitize=address,undefined", "-fno-omit-frame-pointer", "-I", out, dp, b["staticlib"],
-                     "-lpthread", "-ldl", "-lm", "-o", exe], timeout=300)
+        exe = os.path.join(wd, "c03b_%d_%s" % (i, lang))
+        cc = lib.sh(cc0 + ["-g", "-fsanitize=address,undefined", "-fno-omit-frame-pointer", "-I", inc, dp, b["staticlib"],
+                           "-lpthread", "-ldl", "-lm", "-o", exe], timeout=600)
         if cc.returncode != 0:
-            rep.violation({"leg": "generated-api", "what": "driver does not compile"}, {"stderr": cc.stderr[:2500], "driver": dp})
-            return
+            rep.violation({"leg": "generated-api", "api": lang, "what": "driver does not compile"}, {"stderr": cc.stderr[:2500], "driver": dp})
+            return None
         p = lib.sh([exe], timeout=60, env={"ASAN_OPTIONS": "detect_leaks=1"})
         evs = [json.loads(l) for l in p.stdout.splitlines() if l.startswith("{")]
         if p.returncode != 0 or "ERROR: AddressSanitizer" in p.stderr or "LeakSanitizer" in p.stderr or "runtime error:" in p.stderr:
             kind = "leak" if "LeakSanitizer" in p.stderr else ("double-free/invalid access" if "AddressSanitizer" in p.stderr else "crash")
-            rep.violation({"leg": "generated-api", "what": "sanitizer report", "kind": kind}, {"ops": ops, "stderr": p.stderr[-2500:], "driver": dp})
+            rep.violation({"leg": "generated-api", "api": lang, "what": "sanitizer report", "kind": kind}, {"ops": ops, "stderr": p.stderr[-2500:], "driver": dp})
         for e in evs:
             if e["ev"] == "Bad":
-                rep.violation({"leg": "generated-api", "what": e["v"], "on": e["f"]}, {"ops": ops, "driver": dp})
-        # events -> Trace_Ownership vocabulary with cumulative drop counters
-        drops = {}
+                rep.violation({"leg": "generated-api", "api": lang, "what": e["v"], "on": e["f"]}, {"ops": ops, "driver": dp})
+        return evs
+
+    def to_trace(evs):
+        """events -> Trace_Ownership vocabulary with cumulative drop counters"""
         all_events.append({"op": "Reset"})
-        made = []
+        made, cur = [], {}
         for e in evs:
-            if e["ev"] == "Drop":
-                drops[e["f"]] = drops.get(e["f"], 0) + 1
-        cur = {}
-        for j, e in enumerate(evs):
             if e["ev"] == "Drop":
                 cur[e["f"]] = cur.get(e["f"], 0) + 1
                 continue
@@ -201,7 +274,27 @@ def run_leg(rep, tier):
                 # the Rust Drop impl logs *inside* X_destroy, i.e. before our Destroy event: counters after the step include it
                 all_events.append({"op": e["ev"], "p": e["f"], "drops": {m: cur.get(m, 0) for m in made}, "panic": False, "memerr": ""})
         all_events.append({"op": "End", "leak": "", "drops": {m: cur.get(m, 0) for m in made}})
+
+    ncpp = 0
+    for i in range(runs):
+        ops = history(rng, rng.randrange(6, 26))
+        if i == 0:
+            # whatever the seed: one exactly-filled fixed buffer (the terminator lands on the last byte)
+            ops = [("make", 12), ("describe_fixed", 12, 2, 0)] + [o for o in ops if not (o[0].startswith("make") and o[1] == 12)
+                                                                   and not (len(o) > 1 and o[1] == 12)] + [("destroy", 12)]
+        evs = execute("c", i, ops, c_driver(ops))
+        if evs is None:
+            return
+        to_trace(evs)
+        # the same history through the C++ classes (quick: every third history; the C++ compile is the slow part)
+        if tier != "quick" or i % 3 == 0:
+            evs = execute("cpp", i, ops, cpp_driver(ops, random.Random(lib.seed() * 1000 + i)))
+            if evs is None:
+                return
+            to_trace(evs)
+            ncpp += 1
         rep.nontriv(json.dumps(ops))
+    rep.extra["generated_api_histories_cpp"] = ncpp
     tr = os.path.join(wd, "c03b_trace.ndjson")
     lib.write_ndjson(tr, all_events)
     ok, r = lib.validate_trace("own", "Trace_Ownership", "trace.cfg", tr, heap="4g")
